@@ -78,6 +78,7 @@ class PathCtx:
         self.notes = []
         self._bitcache = None
         self.loop_obligations = []
+        self.proxy_hashed = False
 
     # -- solver -------------------------------------------------------------
     def _check(self, *extra):
